@@ -299,9 +299,12 @@ PQ_TYPES = {"i32": ("INT32", 0), "i64": ("INT64", 0), "f32": ("FLOAT", 0), "f64"
 PQ_CODEC = {0: "UNCOMPRESSED", 1: "SNAPPY", 2: "GZIP", 6: "ZSTD", 7: "LZ4_RAW"}
 
 
-def pq_bytes(fs, encoding="RLE_DICTIONARY", crc=True, empty_pages=(), rng=None, dict_offset="present", page_encodings=None):
+def pq_bytes(fs, encoding="RLE_DICTIONARY", crc=True, empty_pages=(), rng=None, dict_offset="present", page_encodings=None,
+             page_stats=False):
     """The same logical file written by tools/pq.py (independent writer): dictionary-encoded chunks, page CRCs,
     optionally an empty data page inserted before page index i of every chunk (empty_pages = set of i).
+    page_stats: Statistics (min / max) in every data page header - with long BYTE_ARRAY values the page header grows
+    beyond the 256-byte window the loaders read first.
     dict_offset="absent": no dictionary_page_offset in the chunk metadata (data_page_offset points at the dictionary
     page).  page_encodings: list of encodings used by the pages of every chunk in turn (mixed PLAIN / dictionary chunk).
     Returns file bytes."""
@@ -335,7 +338,7 @@ def pq_bytes(fs, encoding="RLE_DICTIONARY", crc=True, empty_pages=(), rng=None, 
             for i, pg in enumerate(ch):           # a page may be empty ([]): a data page with num_values = 0
                 if i in empty_pages:
                     pages.append(pq.PageSpec(0, enc, crc=crc))
-                pages.append(pq.PageSpec(len(pg), encs[i % len(encs)], crc=crc))
+                pages.append(pq.PageSpec(len(pg), encs[i % len(encs)], crc=crc, stats=page_stats))
             if len(ch) in empty_pages:
                 pages.append(pq.PageSpec(0, enc, crc=crc))
             has_dict = any(e in ("RLE_DICTIONARY", "PLAIN_DICTIONARY") for e in encs)
@@ -486,7 +489,10 @@ def nested_files(rng, thorough=False):
 def parse_nested_token(t):
     """'r4:1.1.0.1/0.1.0.0/aa.bb.cc' -> (defs, reps, vals)"""
     body = t.partition(":")[2]
-    d, r, v = body.split("/")
+    parts = body.split("/")
+    if len(parts) != 3:
+        raise ValueError("not a nested read token: " + t[:80])
+    d, r, v = parts
     return [int(x) for x in d.split(".")], [int(x) for x in r.split(".")], ([] if v == "-" else v.split("."))
 
 
